@@ -5,10 +5,11 @@ GROUPS = [
  dict(name='skip_extension', cls='P', tu='C16_skip.c', entry='h_skip_extension', enforce=['skip_extension'], replace=['skip_extension_payload'], timeout=600,
       what='skip_extension with skip_extension_payload replaced by its contract'),
 ]
-_RT = dict(cls='B', tu='C16_roundtrip.c', dfcc=False, canary='real', unwind_fn={'skip_extension_payload': 2, 'write_extension_payload': 2}, functions=['opus_packet_extensions_generate', 'opus_packet_extensions_parse',
+_RT = dict(cls='B', tu='C16_roundtrip.c', dfcc=False, canary='real', unwind_fn={'skip_extension_payload': 2, 'write_extension_payload': 2}, recursion={'opus_extension_iterator_next': 3}, functions=['opus_packet_extensions_generate', 'opus_packet_extensions_parse',
            'opus_packet_extensions_count', 'opus_extension_iterator_next', 'write_extension', 'write_extension_payload', 'skip_extension', 'skip_extension_payload'])
-for (_n, _f, _p, _tier) in ((1, 1, 2, 'quick'), (2, 2, 1, 'quick'), (2, 1, 2, 'thorough'), (3, 2, 1, 'thorough'), (2, 3, 2, 'thorough'), (3, 3, 2, 'thorough')):
-    GROUPS.append(dict(_RT, name='ext_roundtrip_%dx%d' % (_n, _f), entry='h_ext_roundtrip', unwind=2 + max(_n, _f) + 1, timeout=3600, expect_canaries=2, tier='thorough', mem_gb=20,
+for (_n, _f, _p, _tier) in ((1, 1, 2, 'thorough'), (2, 1, 2, 'thorough'), (2, 2, 1, 'thorough'), (3, 2, 1, 'thorough'), (2, 3, 2, 'thorough'), (3, 3, 2, 'thorough')):
+    GROUPS.append(dict(_RT, name='ext_roundtrip_%dx%d' % (_n, _f), entry='h_ext_roundtrip', unwind=2 + max(_n, _f) + 1, timeout=3600, expect_canaries=2, tier=_tier, mem_gb=20,
+        recursion={'opus_extension_iterator_next': 1 if _f == 1 else 3},      # a single frame cannot carry a repeat indicator: the iterator never recurses (checked by the recursion unwinding assertion)
         defines=['-DVERIF_NEXT=%d' % _n, '-DVERIF_NFRAMES=%d' % _f, '-DVERIF_PAYLOAD=%d' % _p],
         bounds='exactly %d extensions over %d frames (ids, frames, lengths, payload bytes symbolic), long payload <= %d bytes' % (_n, _f, _p),
         what='generate -> parse round trip, dry-run size == written size, exact-size buffer suffices, one byte less refused'))
